@@ -12,6 +12,7 @@ PROOF_TARGETS = ["C20/Lemmas.vo"]
 PROPS = ["C20/Props.v"]
 ALLOWED_AXIOMS = []
 IMPL_TIMEOUT = 5.0
+COQ_SHARD = 80   # printed observations of long call sequences overflow coqc's stack in bigger files
 RULE = ("boundary values 0, 2^128-1, 57^k, 57^k +-1, random 128-bit values; every single-digit string "
         "(22 positions x 57 letters); lengths 0/21/23; excluded alphanumerics, punctuation and non-ASCII at "
         "every position; encodings of numbers in [2^128, 57^22); canonical/braces/urn/32-hex forms; non-str "
@@ -161,11 +162,241 @@ def gen_cases(rng, tier):
         from_str(s)
     for s in ["", "x", "0" * 22, "0" * 32, "g" * 32, "-" * 22, str(_u.UUID(int=5))[:-1], enc57(M), enc57(7) + "2"]:
         from_str(s)
+    cases += gen_seq_cases(rng, tier)
     return cases
 
 
+# ---- sequences of calls made in ONE process (state kept between calls becomes visible)
+FULLWIDTH = {c: chr(ord(c) - 0x21 + 0xFF01) for c in ALPHA57}
+CONFUSABLE = {"O": "0", "o": "0", "I": "1", "i": "1", "L": "l", "Z": "2", "z": "2", "S": "5", "s": "5", "B": "8", "b": "6",
+              "2": "Z", "5": "S", "8": "B", "6": "b", "1": "l", "0": "O"}
+
+
+def case_variants(s, rng, n_flips=3):
+    """strings that differ from s only in letter case (s itself excluded)"""
+    out = [s.lower(), s.upper(), s.swapcase(), s.casefold(), s.capitalize(), s.title()]
+    letters = [i for i, c in enumerate(s) if c.swapcase() != c]
+    for i in rng.sample(letters, min(n_flips, len(letters))):
+        out.append(s[:i] + s[i].swapcase() + s[i + 1:])
+    if len(letters) >= 2:
+        i, j = rng.sample(letters, 2)
+        t = list(s)
+        t[i], t[j] = t[i].swapcase(), t[j].swapcase()
+        out.append("".join(t))
+    seen, res = {s}, []
+    for v in out:
+        if v not in seen:
+            seen.add(v)
+            res.append(v)
+    return res
+
+
+def decorated_variants(s, rng):
+    """strings a careless normalisation (strip / replace / truncate / unicode folding) maps onto s"""
+    a0 = ALPHA57[0]
+    i = rng.randrange(1, max(2, len(s)))
+    j = rng.randrange(len(s)) if s else 0
+    out = [" " + s, s + " ", s + "\n", "\t" + s + " ", s + "\x00", "{" + s + "}", "urn:uuid:" + s, "uuid:" + s,
+           s[:i] + "-" + s[i:], s[:i] + " " + s[i:], s[:i] + "\u200b" + s[i:], s[:i] + "_" + s[i:],
+           s + a0, a0 + s, s[:-1], s[1:], s + s[-1:], a0 + s[:-1], s[1:] + a0, s.rstrip(a0), s.lstrip(a0),
+           s[::-1], s + s, "'" + s + "'", '"' + s + '"', s + "=", s + "\r\n"]
+    if s:
+        c = s[j]
+        if c in FULLWIDTH:
+            out.append(s[:j] + FULLWIDTH[c] + s[j + 1:])
+        for k, ch in enumerate(s):
+            if ch in CONFUSABLE:
+                out.append(s[:k] + CONFUSABLE[ch] + s[k + 1:])
+                break
+        out.append(s[:j] + s[j] + "\u0301" + s[j + 1:])
+    seen, res = {s}, []
+    for v in out:
+        if v not in seen:
+            seen.add(v)
+            res.append(v)
+    return res
+
+
+def gen_seq_cases(rng, tier):
+    import uuid as _u
+    big = tier == "thorough"
+    M = 1 << 128
+    top = 57 ** 22
+    out = []
+
+    def seq(tag, calls):
+        out.append({"k": "seq", "tag": tag, "calls": [list(c) for c in calls]})
+
+    def rand_uuid():
+        return rng.getrandbits(rng.choice([16, 64, 100, 127, 128, 128, 128]))
+
+    def rand_short():
+        # strings with many letters (case matters) as well as encodings of random uuids
+        if rng.random() < 0.5:
+            return enc57(rng.getrandbits(128))
+        s = "".join(rng.choice(ALPHA57[8:]) for _ in range(21)) + rng.choice(ALPHA57[:40])
+        return s
+
+    def dec_op():
+        return rng.choice(["from_str", "from_short"])
+
+    def forms(v):
+        u = _u.UUID(int=v)
+        return {"canon": str(u), "upper": str(u).upper(), "hex": u.hex, "braces": "{" + str(u) + "}", "urn": u.urn}
+
+    n = 140 if big else 36
+    # 1. a string, then strings differing from it only in letter case (both orders, both decoders, and across them)
+    for _ in range(n):
+        s = rand_short()
+        for v in case_variants(s, rng):
+            o1, o2 = dec_op(), dec_op()
+            first, second = (s, v) if rng.random() < 0.5 else (v, s)
+            seq("case-variants", [(o1, first), (o2, second)])
+        vs = case_variants(s, rng)
+        pool = [s] + vs
+        seq("case-variants-many", [("from_str", x) for x in [s] + vs + [s]])
+        seq("case-variants-many", [(dec_op(), rng.choice(pool)) for _ in range(rng.randrange(3, 9))])
+    # 2. a string, then decorated / truncated / extended / folded relatives of it
+    for _ in range(n):
+        s = rand_short() if rng.random() < 0.7 else enc57(rng.getrandbits(rng.choice([8, 40, 90])))
+        vs = decorated_variants(s, rng)
+        for v in rng.sample(vs, min(len(vs), 8 if big else 5)):
+            o1, o2 = dec_op(), dec_op()
+            first, second = (s, v) if rng.random() < 0.7 else (v, s)
+            seq("decorated", [(o1, first), (o2, second)])
+        seq("decorated-many", [(dec_op(), x) for x in [s] + vs + [s]])
+    # 3. the same call twice / three times (valid, invalid, canonical, too big)
+    for _ in range(n):
+        v = rng.getrandbits(128)
+        arg = rng.choice([enc57(v), enc57(rng.randrange(M, top)), forms(v)["canon"], forms(v)["hex"],
+                          enc57(v)[:-1] + "0", enc57(v)[:-1], ""])
+        o = dec_op()
+        seq("same-twice", [(o, arg)] * rng.choice([2, 3]))
+        seq("same-twice", [("to_short", v)] * rng.choice([2, 3]))
+        seq("same-twice", [("from_str", arg), ("from_short", arg), ("from_str", arg), ("from_short", arg)])
+    # 4. valid then invalid and invalid then valid, unrelated strings (a remembered last result / last error)
+    for _ in range(n):
+        good = [enc57(rng.getrandbits(128)) for _ in range(2)]
+        bad = rng.choice([enc57(rng.randrange(M, top)), good[0][:5] + rng.choice("01IOl-é") + good[0][6:],
+                          good[0][:-1], good[0] + "2", "", "z" * 22])
+        o = dec_op()
+        seq("valid-invalid", [(o, good[0]), (o, bad), (o, good[1]), (o, bad)])
+        seq("valid-invalid", [(o, bad), (o, good[0])])
+        seq("valid-invalid", [("from_short_nonstr", rng.choice(sorted(NONSTR))), ("from_short", good[0]),
+                              ("from_short_nonstr", rng.choice(sorted(NONSTR)))])
+    # 5. every form of one uuid through both decoders and the encoder, in random order
+    for _ in range(n):
+        v = rand_uuid()
+        f = forms(v)
+        f["short"] = enc57(v)
+        calls = [("from_str", x) for x in f.values()] + [("from_short", x) for x in f.values()] + [("to_short", v)] * 2
+        rng.shuffle(calls)
+        seq("forms-of-one-uuid", calls[:rng.randrange(4, len(calls) + 1)])
+        k = rng.choice(["canon", "upper", "hex", "braces", "urn"])
+        seq("canonical-then-short-decoder", [("from_str", f[k]), ("from_short", f[k]), ("to_short", v), ("from_str", f[k])])
+        seq("canonical-then-short-decoder", [("to_short", v), ("from_str", f[k]), ("to_short", v)])
+    # 6. encode then decode, decode then encode, decode relatives of a string the encoder produced
+    for _ in range(n):
+        v = rand_uuid()
+        s = enc57(v)
+        seq("encode-decode", [("to_short", v), ("from_short", s), ("from_str", s), ("to_short", v)])
+        seq("encode-decode", [("from_short", s), ("to_short", v), ("from_short", s)])
+        seq("encode-decode", [("from_str", s), ("to_short", v)])
+        rel = case_variants(s, rng, 1) + decorated_variants(s, rng)
+        seq("encode-then-relative", [("to_short", v), (dec_op(), rng.choice(rel)), (dec_op(), s)])
+        w = rand_uuid()
+        seq("encode-decode", [("to_short", v), ("to_short", w), ("from_short", enc57(w)), ("from_short", s), ("to_short", v)])
+    # 7. uuids a coarse key would identify (same low / high / middle bits, same hash, byte order)
+    for _ in range(n):
+        v = rng.getrandbits(128)
+        other = rng.choice([
+            v ^ (rng.getrandbits(32) + 1) << 96, v ^ (rng.getrandbits(63) + 1) << 64, v ^ (rng.getrandbits(63) + 1),
+            v ^ (1 << rng.randrange(128)), (v + (2 ** 61 - 1)) % M, (v & ((1 << 64) - 1)), v >> 64,
+            int.from_bytes(v.to_bytes(16, "big"), "little"), (v * 57) % M, v // 57, M - 1 - v])
+        other %= M
+        if other == v:
+            other = (v + 1) % M
+        o = dec_op()
+        seq("related-uuids", [("to_short", v), ("to_short", other), (o, enc57(v)), (o, enc57(other)), ("to_short", v)])
+        seq("related-uuids", [(o, enc57(other)), (o, enc57(v)), ("to_short", other), ("to_short", v)])
+    # 8. digit-shifted strings of small numbers (keys stripped of the padding letter)
+    for _ in range(n):
+        v = rng.getrandbits(rng.choice([5, 11, 30, 60])) + 1
+        s = enc57(v)
+        k = rng.randrange(1, 22 - len(s.rstrip(ALPHA57[0])) + 1)
+        shifted = ALPHA57[0] * k + s[:22 - k]
+        o = dec_op()
+        seq("digit-shift", [(o, s), (o, shifted), ("to_short", v), (o, s)])
+    # 8b. valid strings at a small edit distance (one letter substituted, two letters transposed, rotation, reversal):
+    #     keys built from a part of the string, from its letters as a set, from a checksum
+    for _ in range(n):
+        s = rand_short()
+        i, j = rng.sample(range(22), 2)
+        sub1 = s[:i] + rng.choice([c for c in ALPHA57 if c != s[i]]) + s[i + 1:]
+        tl = list(s)
+        tl[i], tl[j] = tl[j], tl[i]
+        near = [sub1, "".join(tl), s[1:] + s[:1], s[-1:] + s[:-1], s[::-1], s[:11][::-1] + s[11:], s[11:] + s[:11]]
+        o = dec_op()
+        x = rng.choice(near)
+        seq("near-strings", [(o, s), (o, x), (o, s)])
+        seq("near-strings", [(dec_op(), y) for y in [s] + rng.sample(near, 4) + [s]])
+    # 9. longer mixed histories over a small pool of related arguments
+    for _ in range(n):
+        v = rng.getrandbits(128)
+        s = rand_short()
+        pool = [s, enc57(v)] + rng.sample(case_variants(s, rng), 2) + rng.sample(decorated_variants(s, rng), 2) + \
+            [forms(v)[rng.choice(["canon", "upper", "hex", "braces", "urn"])]]
+        calls = []
+        for _ in range(rng.randrange(6, 13)):
+            r = rng.random()
+            if r < 0.15:
+                calls.append(("to_short", rng.choice([v, _ref_decode(s)[1] if _ref_decode(s)[0] == "ok" else v])))
+            elif r < 0.2:
+                calls.append(("from_short_nonstr", rng.choice(sorted(NONSTR))))
+            else:
+                calls.append((dec_op(), rng.choice(pool)))
+        seq("mixed-history", calls)
+    # 10. long histories (bounded memories fill up and evict: more distinct arguments than a typical maxsize, each
+    #     argument met again later, relatives of earlier arguments in between)
+    for _ in range(8 if big else 2):
+        base = [rand_short() for _ in range(150)]
+        pool = list(base)
+        for s in rng.sample(base, 40):
+            pool.append(rng.choice(case_variants(s, rng, 1)))
+            pool.append(rng.choice(decorated_variants(s, rng)))
+        calls = [(dec_op(), s) for s in base]
+        for _ in range(150):
+            r = rng.random()
+            if r < 0.1:
+                v = rng.getrandbits(128)
+                calls.append(("to_short", v))
+                pool.append(enc57(v))
+            else:
+                calls.append((dec_op(), rng.choice(pool)))
+        calls += [(dec_op(), s) for s in rng.sample(base, 30)]
+        seq("long-history", calls)
+    return out
+
+
 def kind(case):
-    return case["k"]
+    return case["k"] if case["k"] != "seq" else "seq:" + case.get("tag", "?")
+
+
+def shrink_candidates(case):
+    """shorter histories: every call alone, the history without one call, every pair (in order)"""
+    if case.get("k") != "seq" or len(case["calls"]) < 2:
+        return
+    calls = case["calls"]
+    n = len(calls)
+    subs = [[c] for c in calls] + [calls[:i] + calls[i + 1:] for i in range(n)]
+    if n > 2:
+        subs += [[calls[i], calls[j]] for j in range(n - 1, 0, -1) for i in range(j)]
+    seen = set()
+    for s in subs:
+        key = repr(s)
+        if key not in seen and len(s) < n:
+            seen.add(key)
+            yield {"k": "seq", "tag": case.get("tag", "?"), "calls": s}
 
 
 # ------------------------------------------------------------------ implementation
@@ -173,8 +404,12 @@ NONSTR = {"none": None, "int": 1234567890123456789012, "bytes": b"2" * 22, "list
 
 
 def _call(f, *a):
+    import uuid
     try:
-        return ["ok", f(*a).int]
+        r = f(*a)
+        if not isinstance(r, uuid.UUID):
+            return ["err", "NotAUUID"]
+        return ["ok", r.int]
     except BaseException as e:  # noqa
         if type(e).__name__ == "Hang":
             raise
@@ -190,9 +425,50 @@ def _alpha(su):
     return a if len(a) == 57 and len(set(a)) == 57 else None
 
 
+def _fresh_module():
+    """ak.short_uuid with its module-level state as right after import: every case (and every
+    'alone' re-run of a call) starts from there, so a replay of one case reproduces"""
+    import importlib
+    from ak import short_uuid as su
+    return importlib.reload(su)
+
+
+def _fresh_str(s):
+    # a new string object for every call (and no reference kept afterwards), as a caller who
+    # builds the argument on the fly would pass: identities of arguments may repeat
+    return "".join([c for c in s]) if isinstance(s, str) else s
+
+
+def _do_call(su, op, arg):
+    """one API call -> {"r": result, ["std": what uuid.UUID(arg) gives]}"""
+    import uuid
+    if op == "to_short":
+        try:
+            s = su.uuid_to_short_str(uuid.UUID(int=arg))
+        except BaseException as e:  # noqa
+            if type(e).__name__ == "Hang":
+                raise
+            return {"r": ["err", SX.exc_name(e)]}
+        if not isinstance(s, str):
+            return {"r": ["err", "NotAString"]}
+        return {"r": ["ok", s]}
+    if op == "from_short":
+        return {"r": _call(su.uuid_from_short_str, _fresh_str(arg))}
+    if op == "from_short_nonstr":
+        a = NONSTR[arg]
+        return {"r": _call(su.uuid_from_short_str, list(a) if isinstance(a, list) else a)}
+    if op == "from_str":
+        try:
+            std = uuid.UUID(arg).int
+        except ValueError:
+            std = None
+        return {"r": _call(su.uuid_from_str, _fresh_str(arg)), "std": std}
+    raise ValueError(op)
+
+
 def impl_run(case):
     import uuid
-    from ak import short_uuid as su
+    su = _fresh_module()
     k = case["k"]
     if k == "to_short":
         u = uuid.UUID(int=case["u"])
@@ -212,10 +488,36 @@ def impl_run(case):
         except ValueError:
             std = None
         return {"r": _call(su.uuid_from_str, case["s"]), "std": std, "alpha": _alpha(su)}
+    if k == "seq":
+        # the calls one after another in this process, on one freshly loaded module ...
+        res = [_do_call(su, op, arg) for op, arg in case["calls"]]
+        alpha = _alpha(su)
+        # ... and each call once more ALONE on a freshly loaded module
+        alone = [_do_call(_fresh_module(), op, arg)["r"] for op, arg in case["calls"]]
+        return {"seq": res, "alone": alone, "alpha": alpha}
     raise ValueError(k)
 
 
 # ------------------------------------------------------------------ model side
+def _coq_call(op, arg, o):
+    if op == "to_short":
+        return f"CToShort {SX.cZ(arg)}"
+    if op == "from_short":
+        return f"CFromShort (PStr {SX.cstr(arg)})"
+    if op == "from_short_nonstr":
+        return "CFromShort PNotStr"
+    return f"CFromStr {SX.copt(o['std'], SX.cZ)} {SX.cstr(arg)}"
+
+
+SEQ_PRINT_MAX = 40   # longer histories are compared inside Coq (SeqCmp) instead of being printed
+
+
+def _coq_outcome(op, r):
+    if r[0] == "ok":
+        return f"OStr {SX.cstr(r[1])}" if op == "to_short" else f"ORes (Ok {SX.cZ(r[1])})"
+    return f"ORes (Err {SX.COQ_ERR[SX.ERR_CODES.get(r[1], SX.ERR_OTHER)]})"
+
+
 def coq_case(case, obs):
     k = case["k"]
     if k == "to_short":
@@ -224,14 +526,26 @@ def coq_case(case, obs):
         if case["s"] is None:
             return "FromShort PNotStr"
         return f"FromShort (PStr {SX.cstr(case['s'])})"
+    if k == "seq":
+        calls = SX.clist(_coq_call(op, arg, o) for (op, arg), o in zip(case["calls"], obs["seq"]))
+        if len(case["calls"]) <= SEQ_PRINT_MAX:
+            return "Seq " + calls
+        return f"SeqCmp {calls} {SX.clist(_coq_outcome(op, o['r']) for (op, _), o in zip(case['calls'], obs['seq']))}"
     return f"FromStr {SX.copt(obs['std'], SX.cZ)} {SX.cstr(case['s'])}"
 
 
+def _sx_result(op, r):
+    if op == "to_short":
+        return SX.s(r[1]) if r[0] == "ok" else SX.err(r[1])
+    return SX.ok(r[1]) if r[0] == "ok" else SX.err(r[1])
+
+
 def expected_sx(case, obs):
-    r = obs["r"]
-    if case["k"] == "to_short":
-        return SX.dumps(r[1]) if r[0] == "ok" else SX.dumps(SX.err(r[1]))
-    return SX.dumps(SX.ok(r[1]) if r[0] == "ok" else SX.err(r[1]))
+    if case["k"] == "seq" and len(case["calls"]) > SEQ_PRINT_MAX:
+        return "(1)"
+    if case["k"] == "seq":
+        return SX.dumps([_sx_result(op, o["r"]) for (op, _), o in zip(case["calls"], obs["seq"])])
+    return SX.dumps(_sx_result(case["k"], obs["r"]))
 
 
 # ------------------------------------------------------------------ oracle (statement, independently)
@@ -248,11 +562,54 @@ def _ref_decode(s, alpha=None):
     return ["ok", v]
 
 
+def _judge(op, arg, r, std, alpha):
+    """the property's demand on ONE call, whatever was called before -> [(sig, msg)]"""
+    if op == "to_short":
+        if r[0] != "ok":
+            return [("encode-raises", f"uuid_to_short_str({arg}) raised {r[1]}")]
+        s = r[1]
+        a = alpha or ALPHA57
+        if len(s) != 22 or len(set(a)) != 57 or any(c not in a for c in s):
+            return [("shape", f"encoding {s!r} of {arg} is not 22 letters of a 57-letter alphabet")]
+        if _ref_decode(s, alpha) != ["ok", arg]:
+            return [("encode-wrong", f"uuid_to_short_str({arg}) = {s!r}, which denotes {_ref_decode(s, alpha)}")]
+        return []
+    if op in ("from_short", "from_short_nonstr"):
+        want = _ref_decode(arg if op == "from_short" else None, alpha)
+        if want != r:
+            sig = "reject-not-valueerror" if want[0] == "err" and r[0] == "err" else \
+                  "accepts-invalid" if want[0] == "err" else "decode-wrong"
+            return [(sig, f"uuid_from_short_str({arg!r}) gave {r}, the property demands {want}")]
+        return []
+    want = ["ok", std] if std is not None else _ref_decode(arg, alpha)
+    if want != r:
+        sig = "from-str-reject-not-valueerror" if want[0] == "err" and r[0] == "err" else "from-str-wrong"
+        return [(sig, f"uuid_from_str({arg!r}) gave {r}, the property demands {want}")]
+    return []
+
+
+def _show_calls(calls):
+    names = {"to_short": "uuid_to_short_str", "from_short": "uuid_from_short_str",
+             "from_short_nonstr": "uuid_from_short_str", "from_str": "uuid_from_str"}
+    return "; ".join(f"{names[op]}({arg!r})" for op, arg in calls)
+
+
 def oracle(case, obs):
     if "__hang__" in obs:
         return [("hang", "call did not return")]
     out = []
     k = case["k"]
+    if k == "seq":
+        calls = case["calls"]
+        for i, ((op, arg), o, alone) in enumerate(zip(calls, obs["seq"], obs["alone"])):
+            if o["r"] != alone:
+                # calls must not influence each other: the same call alone (fresh module) answers differently
+                out.append(("history-dependent",
+                            f"call #{i + 1} {_show_calls([calls[i]])} gave {o['r']} after [{_show_calls(calls[:i])}] "
+                            f"but {alone} when it is the only call made"))
+            for sig, msg in _judge(op, arg, o["r"], o.get("std"), obs.get("alpha")):
+                out.append(("seq-" + sig, f"call #{i + 1} of [{_show_calls(calls[:i + 1])}]: {msg}"))
+        return out
     r = obs["r"]
     if k == "to_short":
         if r[0] != "ok":
@@ -264,18 +621,9 @@ def oracle(case, obs):
         if obs["back"] != ["ok", case["u"]]:
             out.append(("roundtrip", f"from_short(to_short({case['u']})) = {obs['back']}"))
     elif k == "from_short":
-        arg = case["s"]
-        want = _ref_decode(arg, obs.get('alpha'))
-        if want != r:
-            sig = "reject-not-valueerror" if want[0] == "err" and r[0] == "err" else \
-                  "accepts-invalid" if want[0] == "err" else "decode-wrong"
-            out.append((sig, f"uuid_from_short_str({arg!r}) gave {r}, the property demands {want}"))
+        out += _judge("from_short", case["s"], r, None, obs.get("alpha"))
     else:
-        s = case["s"]
-        want = ["ok", obs["std"]] if obs["std"] is not None else _ref_decode(s, obs.get('alpha'))
-        if want != r:
-            sig = "from-str-reject-not-valueerror" if want[0] == "err" and r[0] == "err" else "from-str-wrong"
-            out.append((sig, f"uuid_from_str({s!r}) gave {r}, the property demands {want}"))
+        out += _judge("from_str", case["s"], r, obs["std"], obs.get("alpha"))
     return out
 
 
@@ -285,12 +633,17 @@ def nontrivial(case, obs):
         return case["u"] > 0
     if k == "from_short":
         return isinstance(case["s"], str) and len(case["s"]) == 22
+    if k == "seq":
+        return len(case["calls"]) >= 2
     return True
 
 
 def outcome(case, obs):
     if "__hang__" in obs:
         return "hang"
+    if case["k"] == "seq":
+        oks = [o["r"][0] == "ok" for o in obs["seq"]]
+        return "seq:" + ("all-ok" if all(oks) else "all-raise" if not any(oks) else "some-ok-some-raise")
     r = obs["r"]
     return case["k"] + ":" + (r[0] if r[0] == "ok" else r[1])
 
